@@ -295,6 +295,7 @@ func (cc *checkCtx) checkProperty(prop string, seed int, known []KnownFinding, b
 			continue
 		}
 		u := r.u
+		debugf("unit %-60s %.1fs queries=%d paths=%d", n, r.secs, u.queries, u.paths)
 		for _, e := range u.errs {
 			engineErrs = append(engineErrs, n+": "+e)
 		}
